@@ -32,6 +32,10 @@ pub struct ConnPlan {
     pub server: SideLoad,
     /// client calls local_address_changed() at these times (ms after the connection started)
     pub rebind_at_ms: Vec<u16>,
+    /// the client endpoint of this connection starts sending from its alternate address this many ms
+    /// after the connection started (a NAT rebinding as seen by the servers; needs server migration)
+    #[serde(default)]
+    pub move_at_ms: Option<u16>,
 }
 
 #[derive(Clone, Debug, Serialize, Deserialize, PartialEq)]
@@ -49,7 +53,7 @@ fn gen() -> XferGen {
 }
 
 pub fn arb_case() -> impl Strategy<Value = Case> {
-    let plan = (0u16..4000, 0u8..3, 0u8..2, arb_load(gen()), arb_load(gen()), prop::collection::vec(0u16..3000, 0..3)).prop_map(|(at_ms, cep, sep, client, server, rebind_at_ms)| ConnPlan { at_ms, cep, sep, client, server, rebind_at_ms });
+    let plan = (0u16..4000, 0u8..3, 0u8..2, arb_load(gen()), arb_load(gen()), prop::collection::vec(0u16..3000, 0..3), prop::option::weighted(0.15, 0u16..3000)).prop_map(|(at_ms, cep, sep, client, server, rebind_at_ms, move_at_ms)| ConnPlan { at_ms, cep, sep, client, server, rebind_at_ms, move_at_ms });
     (
         arb_net(gen()),
         1u8..=3,
@@ -59,11 +63,18 @@ pub fn arb_case() -> impl Strategy<Value = Case> {
         // CID lifetimes that force rotation during the case
         prop::option::weighted(0.6, 100u32..3000),
         prop::option::weighted(0.6, 100u32..3000),
+        // short connection IDs: retired values are issued again soon
+        (prop::option::weighted(0.2, 1u8..=2), prop::option::weighted(0.2, 1u8..=2)),
     )
-        .prop_map(|(net, n_ceps, n_seps, conns, target, life_c, life_s)| {
+        .prop_map(|(net, n_ceps, n_seps, conns, target, life_c, life_s, (short_c, short_s))| {
             let mut net = net;
             net.client_ep.cid_lifetime_ms = life_c;
             net.server_ep.cid_lifetime_ms = life_s;
+            for (ep, short) in [(&mut net.client_ep, short_c), (&mut net.server_ep, short_s)] {
+                if let (Some(l), false) = (short, ep.cid_kind == CidKind::Hashed) {
+                    ep.cid_len = l;
+                }
+            }
             normalize_case(Case { net, n_ceps, n_seps, conns, target })
         })
 }
@@ -96,9 +107,28 @@ pub fn normalize_case(mut c: Case) -> Case {
     if net.server_ep.cid_len == 0 {
         net.srv.retry = false;
     }
+    // known finding c09/misrouted/post-retry-initial-collides-with-issued-cid: with 1-3 byte server IDs
+    // the ID announced in a Retry regularly belongs to a live connection and the client never gets
+    // through; excluded by construction for tiny IDs (still reported if it happens with longer ones)
+    if (1..4).contains(&net.server_ep.cid_len) {
+        net.srv.retry = false;
+    }
     if net.client_ep.cid_len == 0 || net.server_ep.cid_len == 0 {
         let mut seen = BTreeSet::new();
         c.conns.retain(|p| seen.insert((p.cep, p.sep)));
+    }
+    // an address change is only survivable with connection IDs on both sides, and (NAT rebinding seen
+    // by the server) only once the handshake is over: late moves only
+    for p in &mut c.conns {
+        if net.client_ep.cid_len == 0 || net.server_ep.cid_len == 0 {
+            p.move_at_ms = None;
+        }
+        if let Some(m) = &mut p.move_at_ms {
+            *m = (*m).max(1500);
+        }
+    }
+    if c.conns.iter().any(|p| p.move_at_ms.is_some()) {
+        net.srv.migration = true;
     }
     c.net = net;
     c.conns.sort_by_key(|p| p.at_ms);
@@ -127,6 +157,17 @@ pub fn case(c: &Case) -> CaseOut {
     for i in 1..c.n_ceps {
         ceps.push(w.add_endpoint(false, vec![addr_v6(0x10 + i as u16, 5000 + i as u16)]));
     }
+    // alternate source addresses of the client endpoints (same host, other port: a NAT rebinding)
+    for (i, e) in ceps.iter().enumerate() {
+        let alt = addr_v6(if i == 0 { 1 } else { 0x10 + i as u16 }, 6000 + i as u16);
+        w.eps[*e].addrs.push(alt);
+    }
+    // (an endpoint moves all its connections; a connection still in its handshake cannot survive that,
+    // so moves happen after the last connection had time to establish)
+    let last_start_ms = c.conns.iter().map(|p| p.at_ms as u64).max().unwrap_or(0);
+    let mut moves: Vec<(u64, usize)> = c.conns.iter().filter_map(|p| p.move_at_ms.map(|m| ((last_start_ms + m as u64) * 1000, ceps[p.cep as usize % ceps.len()]))).collect();
+    moves.sort();
+    let mut next_move = 0;
     for i in 1..c.n_seps {
         seps.push(w.add_endpoint(true, vec![addr_v6(0x20 + i as u16, 4433)]));
     }
@@ -181,7 +222,28 @@ pub fn case(c: &Case) -> CaseOut {
             }
             next_plan += 1;
         }
+        while next_move < moves.len() && moves[next_move].0 <= w.now {
+            // an address change in the middle of a handshake (or between a Retry and the Initial that
+            // answers it) legitimately kills that attempt: wait until every connection of the endpoint
+            // is established on both sides
+            let ep = moves[next_move].1;
+            let ready = next_plan >= c.conns.len()
+                && w.conns.iter().filter(|cs| cs.ep == ep && !cs.gone && cs.app.lost.is_empty() && !cs.app.closed_locally).all(|cs| cs.app.connected && cs.peer.is_some_and(|p| w.conns[p].app.connected || !w.conns[p].app.lost.is_empty()));
+            if !ready {
+                moves[next_move].0 = w.now + 100_000;
+                if w.now > last_start + 60_000_000 {
+                    next_move += 1; // give up on this move
+                }
+                break;
+            }
+            w.eps[ep].cur_src = 1;
+            next_move += 1;
+        }
         let next_start = c.conns.get(next_plan).map(|p| p.at_ms as u64 * 1000);
+        let next_start = match (next_start, moves.get(next_move).map(|m| m.0)) {
+            (Some(a), Some(b)) => Some(a.min(b)),
+            (a, b) => a.or(b),
+        };
         let horizon = match w.faults_done_at {
             Some(t) => t.max(last_start) + 900_000_000,
             None => w.now + 900_000_000,
@@ -189,7 +251,7 @@ pub fn case(c: &Case) -> CaseOut {
         .min(hard_end);
         let until = next_start.unwrap_or(horizon).min(horizon);
         let before = (w.now, w.step);
-        let all_started = next_plan >= c.conns.len();
+        let all_started = next_plan >= c.conns.len() && next_move >= moves.len();
         let ok = w.run(until, |w| all_started && done(w, &client_conn, target));
         if !ok {
             return CaseOut::inconclusive("step limit");
@@ -286,6 +348,8 @@ pub fn case(c: &Case) -> CaseOut {
     let mut by_seq: BTreeMap<(usize, u64), Vec<u8>> = BTreeMap::new();
     let mut retired_seq: Vec<(usize, u64)> = vec![];
     let mut odcids: BTreeSet<(usize, Vec<u8>)> = BTreeSet::new();
+    // (endpoint that may have registered the token, endpoint that issued it, token)
+    let mut tokens: BTreeSet<(usize, usize, [u8; 16])> = BTreeSet::new();
     // A retirement counts as processed by the peer only if the peer acknowledged the 1-RTT packet
     // that carried it (a packet can also be discarded by the receiver, e.g. 1-RTT data arriving
     // before the handshake is complete): (sender, packet number) of retirements, and what each
@@ -322,9 +386,13 @@ pub fn case(c: &Case) -> CaseOut {
                     }
                     for f in p.frames.iter().flatten() {
                         match f {
-                            OF::NewConnectionId { cid, seq, .. } => {
+                            OF::NewConnectionId { cid, seq, reset_token, .. } => {
                                 cids.insert((ep, cid.clone()));
                                 by_seq.insert((*conn, *seq), cid.clone());
+                                if let Some(peer) = w.conns[*conn].peer {
+                                    // the peer's endpoint may register this token under the issuer's addresses
+                                    tokens.insert((w.conns[peer].ep, ep, *reset_token));
+                                }
                             }
                             OF::RetireConnectionId(s) => {
                                 if *s > 0 {
@@ -481,6 +549,18 @@ pub fn case(c: &Case) -> CaseOut {
         let from = if w.eps[*ep].is_server { w.eps[ceps[0]].addrs[0] } else { w.eps[seps[0]].addrs[0] };
         w.inject(t0 + 1000 + probes, to, from, d);
         probes += 1;
+    }
+    // stateless-reset-shaped datagrams carrying every reset token ever announced, from every address
+    // of the endpoint that announced it
+    for (reg_ep, issuer_ep, tok) in &tokens {
+        let to = w.eps[*reg_ep].addrs[0];
+        for from in w.eps[*issuer_ep].addrs.clone() {
+            let mut d = vec![0x43u8];
+            d.extend((0..30).map(|i| (mix(c.net.seed ^ 0x7e5e, i + probes) & 0xff) as u8));
+            d.extend_from_slice(tok);
+            w.inject(t0 + 1000 + probes, to, from, d);
+            probes += 1;
+        }
     }
     let record_was = w.record;
     w.record = true;
